@@ -5,7 +5,7 @@ import buildimpl, ffi_corr
 
 PROP_MODULE = "NeverModel.Props.C17"
 REQUIRED = ["Never.C17.layout_matches_sysv", "Never.C17.marshal_roundtrip", "Never.C17.descriptor_walk",
-            "Never.C17.ffi_failure_paths_partial", "Never.C17.ffi_failure_paths_counterexample",
+            "Never.C17.ffi_failure_paths", "Never.C17.ffi_failure_paths_nil_exact",
             "Never.C17.ffi_failure_paths_missing"]
 
 class _Collect:
